@@ -392,6 +392,23 @@ class Schema:
                 body = r.choice([['eq', acc, acc], ['and', ['hasTag', U2, lit(gen.vstr('k'))], ['eq', acc, acc]]])
             return ['policy', S('p'), r.choice(['permit', 'forbid']), ['is', S(env[0])], ['eq', gen.vent('Action', a)], ['is', S(env[2])],
                     ['conds', ['when', body]], ['annots']]
+        # several clauses: each is checked on its own - what an earlier `when` / `unless` establishes (a presence test) does not carry over, and an
+        # `unless` holds when its body is FALSE
+        if opt and r.random() < 0.1:
+            base, key, t = r.choice(opt)
+            acc = ['access', base, S(key)]
+            first = r.choice([['unless', ['has', base, S(key)]], ['when', ['has', base, S(key)]], ['unless', ['not', ['has', base, S(key)]]], ['when', ['not', ['has', base, S(key)]]]])
+            second = [r.choice(['when', 'unless']), r.choice([['eq', acc, acc], ['ne', acc, acc], ['and', cond, ['eq', acc, acc]]])]
+            return ['policy', S('p'), r.choice(['permit', 'forbid']), ['is', S(env[0])], ['eq', gen.vent('Action', a)], ['is', S(env[2])],
+                    ['conds', first, second], ['annots']]
+        # tags of a union of two ordinary entity types (permissive mode), whatever the tag types are (entities, records, sets: not comparable with ==)
+        if r.random() < 0.08:
+            Uab = r.choice([['if', cond, f1, f2], ['if', cond, f2, f1]])
+            kk = lit(gen.vstr(r.choice(['k', 't'])))
+            body = r.choice([['and', ['hasTag', Uab, kk], ['eq', ['getTag', Uab, kk], ['getTag', Uab, kk]]], ['eq', ['getTag', Uab, kk], ['getTag', Uab, kk]],
+                             ['and', ['hasTag', Uab, kk], ['hasTag', ['getTag', Uab, kk], kk]]])
+            return ['policy', S('p'), r.choice(['permit', 'forbid']), ['is', S(env[0])], ['eq', gen.vent('Action', a)], ['is', S(env[2])],
+                    ['conds', ['when', body]], ['annots']]
         G = r.choice(guards)
         bads = [['gt', ['add', lit(gen.vstr('a')), lit(gen.vlong(1))], lit(gen.vlong(0))], ['like', lit(gen.vlong(1)), ['pat', ['w']]],
                 ['contains', lit(gen.vlong(1)), lit(gen.vlong(1))], ['lt', lit(gen.vlong(1)), lit(gen.vstr('a'))]]
